@@ -48,7 +48,7 @@ Deliver, in the directory {wt}/_seed/ (create it):
 2. `demo.py` — a small program exercising the refactored code through the public API on several inputs (ordinary and unusual) and printing a digest of the results; it must print EXACTLY the same output with and without your change (run both and compare) and exit 0.
 3. `meta.json` — {{"property": "{pid}", "benign": true, "summary": "<what was refactored, 2-3 sentences>", "why_equivalent": "<one sentence per touched site arguing equivalence for all inputs>", "files_changed": [...], "tests_after": "<what you measured>"}}.
 
-Leave the worktree WITH the change applied. Final answer: 5-10 lines describing the refactoring and your measurements.'''
+Never use `git stash` (the stash is shared between all worktrees of the repository and other people are working in theirs): to compare with the clean tree use `git -C {wt} apply -R _seed/patch.diff` and `git -C {wt} apply _seed/patch.diff`. Leave the worktree WITH the change applied. Final answer: 5-10 lines describing the refactoring and your measurements.'''
 for name in sys.argv[1:]:
     pid, k = name.split("-")
     wt = "/tmp/seed/" + name
